@@ -42,7 +42,7 @@ def main():
         rc1, out1 = sh(f"/venv/bin/python {demo}", cwd=wt, env=env, timeout=300)
         res["demo_mutant_rc"] = rc1
         for c in checks:
-            env2 = dict(os.environ, BARDIC_REPO=wt)
+            env2 = dict(os.environ, BARDIC_REPO=wt, VERIF_EVIDENCE_DIR="/tmp/st/evidence")
             rc, out = sh(f"{VERIF}/check {c}", cwd=VERIF, env=env2, timeout=3600)
             lines = [l for l in out.splitlines() if l.startswith(("VIOLATION", "[C", "KNOWN", "INFRA"))]
             res[c] = {"rc": rc, "lines": lines[-4:]}
